@@ -128,13 +128,15 @@ def uint_pair(btsd):
     return None
 
 
-def monitors(chk, case, obs):
+def monitors(chk, case, obs, only=None):
     ''' the property text, on the octets handed to the CL '''
     assigned = set()
     by_item = {}
     for o in obs:
         by_item.setdefault(o['item'], []).append(o)
     for ix, it in enumerate(case['items']):
+        if only is not None and ix != only:
+            continue
         b = it['b']
         p = b['pri']
         rj = replay_obj(case, ix)
@@ -219,7 +221,12 @@ def monitors(chk, case, obs):
         if len(ages) > 1:
             chk.violation('C11:duplicate-age-survives', '%s: %d bundle-age blocks leave the node: %s (received had %d)'
                           % (tag, len(ages), [k['btsd'] for k in ages], len([k for k in b['blocks'] if k['t'] == 7])), rj)
-        elif p['ts'][0] != 0:
+        elif p['ts'][0] == 0:
+            # creation time 0: the received age block(s) are removed and none is added. "At most one" holds;
+            # counted for the report (RFC 9171 4.2.1 wants an age block on such a bundle).
+            if any(k['t'] == 7 for k in b['blocks']) and not ages:
+                chk.count('ts0:received-age-block-not-forwarded')
+        else:
             want = fwd_now - p['ts'][0]
             got = None
             if ages:
@@ -316,25 +323,30 @@ def w_admin_weird():
 
 
 def zero_block_leak(chk):
-    ''' Malformed input, outside the model: a bundle without any canonical block. Dissection leaves the
-    `blocks` field at its class-level default list (PacketListField('blocks', default=[])); add_block inserts
-    the new previous-node / age blocks into that shared list, so the next such bundle (and every Bundle()
-    built afterwards in the process) starts with them. '''
+    ''' A bundle without any canonical block is outside C11's quantifier (the property presupposes a payload
+    block). What matters here is that it cannot harm a LATER well-formed bundle: dissection leaves its
+    `blocks` field at the class-level default list (PacketListField('blocks', default=[])), and an in-place
+    insert there would hand the added blocks to every Bundle() built afterwards. Probe: primary-only bundle,
+    then a well-formed one through the same agent; the monitors run on the well-formed one only. '''
     fix = A.Fixture(RX, TX)
-    outs = []
-    for i in range(2):
-        b = {'pri': A.mk_pri(A.dtn('//far/x'), A.dtn('//src/'), [A.T0 - 5, i]), 'rpt_none': False, 'blocks': []}
-        items = [{'b': b, 'data': A.enc_bundle(b), 'now': A.T0 + 1, 'crc_ok': True}]
-        _ev, obs = A.run_real(fix, items)
-        outs.append(sum(len(o['tx']) for o in obs))
+    b0 = {'pri': A.mk_pri(A.dtn('//far/x'), A.dtn('//src/'), [A.T0 - 5, 0]), 'rpt_none': False, 'blocks': [],
+          'mode': 'zero-block'}
+    b1 = _w('after-zero-block', [A.mk_blk(10, 2, A.enc([9, 1]))], ts=(A.T0 - 5, 1))
+    case = mk_case([b0, b1])
+    for it in case['items']:
+        it['data'] = A.enc_bundle(it['b'])
+    _ev, obs = A.run_real(fix, case['items'])
     leaked = len(fix.m['enc'].Bundle().getfieldval('blocks'))
     del fix.m['enc'].Bundle().getfieldval('blocks')[:]
     chk.count('zero-block-probe')
-    if outs != [1, 1] or leaked:
+    if leaked:
+        chk.count('zero-block-probe:default-list-polluted')
+    monitors(chk, {'items': case['items']}, [o for o in obs if o['item'] == 1], only=1)
+    if leaked:
         chk.violation('C11:zero-block-bundle-leaks-state',
-                      'two bundles without any canonical block, routed forward: transmitted %s (expected [1, 1]); '
-                      'a fresh Bundle() now has %d blocks' % (outs, leaked),
-                      {'rx': RX, 'tx': TX, 'note': 'two primary-only bundles in one process', 'items': []})
+                      'after forwarding a primary-only bundle a fresh Bundle() has %d blocks: later bundles built '
+                      'in this process (status reports, fragments) start with them' % leaked,
+                      replay_obj(case))
 
 
 def run_cases(chk, cases, compare=True):
